@@ -112,6 +112,12 @@ class Collector:
         self.samples = []
         self.inconclusive = []
         self.notes = collections.Counter()
+        self.distinct_extra = 0
+
+    def distinct(self, n=1):
+        """Cases that are distinct by construction (enumerated spaces whose
+        shards are disjoint): counted, not stored."""
+        self.distinct_extra += n
 
     def key(self, *parts):
         self.keys.add("|".join(str(p) for p in parts))
@@ -166,6 +172,7 @@ class Collector:
             "samples": self.samples,
             "inconclusive": self.inconclusive,
             "notes": dict(self.notes),
+            "distinct_extra": self.distinct_extra,
         }
 
 
@@ -288,7 +295,7 @@ def run_check(modname, tier, seed, replay=None):
     merged = {
         "evaluations": 0, "keys": set(), "counts": collections.Counter(),
         "violations": [], "n_violations": 0, "samples": [],
-        "inconclusive": [], "notes": collections.Counter(),
+        "inconclusive": [], "notes": collections.Counter(), "distinct_extra": 0,
     }
     problems = []
 
@@ -334,6 +341,7 @@ def run_check(modname, tier, seed, replay=None):
         merged["n_violations"] += data["n_violations"]
         merged["inconclusive"].extend(data["inconclusive"])
         merged["notes"].update(data["notes"])
+        merged["distinct_extra"] += data.get("distinct_extra", 0)
         for s in data["samples"]:
             if len(merged["samples"]) < MAX_SAMPLES:
                 merged["samples"].append(s)
@@ -367,8 +375,9 @@ def run_check(modname, tier, seed, replay=None):
     for name, minimum in floors.get("counts", {}).items():
         if merged["counts"].get(name, 0) < minimum:
             floor_fail.append(f"{name}={merged['counts'].get(name, 0)} < {minimum}")
-    if len(merged["keys"]) < floors.get("keys", 0):
-        floor_fail.append(f"distinct={len(merged['keys'])} < {floors['keys']}")
+    n_distinct = len(merged["keys"]) + merged["distinct_extra"]
+    if n_distinct < floors.get("keys", 0):
+        floor_fail.append(f"distinct={n_distinct} < {floors['keys']}")
     if merged["evaluations"] < floors.get("evaluations", 0):
         floor_fail.append(f"evaluations={merged['evaluations']} < {floors['evaluations']}")
 
@@ -385,7 +394,7 @@ def run_check(modname, tier, seed, replay=None):
         "level": module.LEVEL,
         "coverage": {
             "evaluations": int(merged["evaluations"]),
-            "distinct_nontrivial": len(merged["keys"]),
+            "distinct_nontrivial": n_distinct,
             "rule": module.RULE,
             "samples": merged["samples"],
             "monitor_counts": dict(sorted(merged["counts"].items())),
@@ -412,7 +421,7 @@ def run_check(modname, tier, seed, replay=None):
             f.write("\n")
 
     print(f"[{prop}] tier={tier} seed={seed} evaluations={merged['evaluations']} "
-          f"distinct={len(merged['keys'])} wall={wall:.1f}s")
+          f"distinct={n_distinct} wall={wall:.1f}s")
     interesting = {k: v for k, v in sorted(merged["counts"].items())}
     print(f"[{prop}] monitor counts: {json.dumps(interesting)}")
     if merged["notes"]:
